@@ -123,7 +123,41 @@ class MPSFloatFormat_normalize(Contract):
             # B6: value-preserving and canonical
             'B6_value': implies(fin, dy_eqv(r._real, x._real)),
             'B6_canonical': implies(fin, mps_canonical(self, r._real)),
+            # the canonical representation has the same ordinal
+            'ord_preserved': implies(fin, mps_ord(self, r._real) == mps_ord(self, x._real)),
         }
 
     def raises(self, x):
         return {}
+
+
+class MPS_canonical_monotone(Lemma):
+    """
+    B5 (strictly increasing) on canonical representations of non-zero finite members: values compare
+    like ordinals.  MPSFloatFormat.normalize maps every member to its canonical representation
+    (value and ordinal preserved); MPFixed_ord_monotone lifts magnitudes to signed values.
+    """
+    params = {'self': 'MPSFloatFormat', 'x': 'RealFloat', 'y': 'RealFloat'}
+    properties = ['C16']
+    options = {'split_heavy': True, 'schemas': ['MM']}
+
+    def pre(self, x, y):
+        return {
+            'pmax': self.pmax >= 1,
+            'x_nonzero': x._c > 0, 'y_nonzero': y._c > 0,
+            'x_canonical': mps_canonical(self, x), 'y_canonical': mps_canonical(self, y),
+        }
+
+    def post(self, x, y):
+        fork(x._exp < y._exp)
+        fork(x._exp > y._exp)
+        Q = pow2(self.pmax - 1)
+        ox = (x._exp - mps_expmin(self)) * Q + x._c
+        oy = (y._exp - mps_expmin(self)) * Q + y._c
+        return {
+            'canon_x': mps_ord_mag(self, x) == ox,
+            'canon_y': mps_ord_mag(self, y) == oy,
+            'lt': mag_lt(x, y) == (ox < oy),
+            'eq': mag_eq(x, y) == (ox == oy),
+            'pos': ox > 0,
+        }
